@@ -368,7 +368,11 @@ func checkC11(r *core.Run) {
 		if res.counts["setshard"] > 0 && res.bad == "" && res.counts["extend"] > 0 {
 			r.Discharge("T-lifetime", key, r.P.FuncPos(anchor), "after a shard's renewal info is persisted the data-id iteration passes ExtendMetaDuration before it ends")
 		} else {
-			r.Violate("T-lifetime", key, r.P.FuncPos(anchor), "Renew can persist a shard's renewal without extending the data model's lifetime: the model is deleted at the old end height although paid shards remain")
+			pos := r.P.FuncPos(anchor)
+			if res.badAt != nil {
+				pos = r.P.Pos(res.badAt.Pos())
+			}
+			r.Violate("T-lifetime", key, pos, "Renew can persist a shard's renewal without extending the data model's lifetime: the model is deleted at the old end height although paid shards remain")
 		}
 	}
 	rulePaidEnd(r)
